@@ -17,14 +17,15 @@ A missing obliged peptide that matches no signature is a VIOLATION with the inpu
 """
 import json, os, glob, collections
 from harness.lib import oracle as O, cvgen as CG, cvcheck as CK
+from harness.lib import cvgen2 as CG2, cvcheck2 as CK2      # alternative-splicing / circRNA streams
 
 PROPERTY = 'C01'
 ROOT = os.path.dirname(os.path.dirname(os.path.dirname(os.path.abspath(__file__))))
 
 def sizes(ctx):
     if ctx.quick:
-        return dict(core=700, excon=260, nola=100, wide=50, flags=90, fusion=110)
-    return dict(core=17000, excon=6000, nola=1200, wide=800, flags=4000, fusion=3000)
+        return dict(core=700, excon=260, nola=100, wide=50, flags=90, fusion=110, altsplice=150, circ=120)
+    return dict(core=17000, excon=6000, nola=1200, wide=800, flags=4000, fusion=3000, altsplice=4000, circ=3000)
 
 def gen_cases(ctx):
     rng = ctx.rng
@@ -77,6 +78,8 @@ def gen_cases(ctx):
         c['runs'] = [dict(CG.gen_run(rng, rule='trypsin', exc_on=False), fusion_must=True)]
         c['stream'] = 'fusion'
         cases.append(c)
+    cases += altsplice_cases(ctx, n.get('altsplice', 0))
+    cases += circ_cases(ctx, n.get('circ', 0))
     return cases
 
 def corpus_cases():
@@ -181,7 +184,7 @@ def run(ctx):
         rep = []
         for c in corp:
             rep += [c] * c.get('repeat', 1)
-        judge(CK.run_batch(ctx, rep, tag='c01c'), violations, stats)
+        judge(CK2.run_batch(ctx, rep, tag='c01c'), violations, stats)
         # the same finding hit several times by the repeats of one corpus case counts once
         seen = set(); uniq = []
         for v in violations:
@@ -190,7 +193,7 @@ def run(ctx):
                 seen.add(k); uniq.append(v)
         violations = uniq
     cases = gen_cases(ctx)
-    stream_wall = CK.run_streams(ctx, cases, judge, violations, stats, want_may=True, tag='c01')
+    stream_wall = CK2.run_streams(ctx, cases, judge, violations, stats, want_may=True, tag='c01')
     # one representative per (finding, stream) is enough for known findings; all unexplained are kept
     keep, cnt = [], collections.Counter()
     for v in violations:
@@ -199,24 +202,24 @@ def run(ctx):
             if cnt[v['finding']] > 40:
                 continue
         keep.append(v)
-    CK.annotate_stability(ctx, keep, judge, want_may=True)
+    CK.annotate_stability(ctx, [v for v in keep if not CK2.is_ext(v.get('replay_obj', {}).get('case', {}))], judge, want_may=True)
     samples = [dict(CK.strip_case(c), world='<omitted>') for c in cases[:3]]
     return dict(evaluations=sum(v for k, v in stats.items() if k.startswith('runs:')),
                 distinct_nontrivial=stats['nontrivial'],
                 rule='one evaluation = one callVariant run on a generated world + GVF compared with must_set of every '
                      'transcript carrying records; non-trivial = the obliged set of that run is non-empty',
-                samples=samples, distribution=CK.dist_of(cases), stats=dict(stats),
+                samples=samples, distribution=CK.dist_of(cases), distribution_ext=CK2.dist_of([c for c in cases if CK2.is_ext(c)]), stats=dict(stats),
                 slack={'out_minus_must': stats['slack_out_minus_must'], 'may_novel_minus_out': stats['slack_may_minus_out'],
                        'out_peptides': stats['out_peptides'], 'must_peptides': stats['must_peptides']},
                 known_finding_counts=dict(cnt), engine_tied_by='correspondence', stream_wall_s=stream_wall,
                 violations=keep,
-                assumptions=['records are SNV / MNV / INDEL on linear transcripts; fusion, alternative splicing and circRNA records are not generated (property partial for them)',
+                assumptions=['records are SNV / MNV / INDEL on linear transcripts, fusions with exonic breakpoints, alternative-splicing <DEL>/<INS>/<SUB> records whose donor segments carry no small records (stream altsplice: must_as_set, exactly one AS record per obliged haplotype) and circRNA records (stream circ: must_circ_set); fusion with intronic breakpoints, AS donor records, AS combined with fusion / circRNA are not obliged (property partial for them)',
                              'gene -> transcript coordinates are computed by the generator\'s own ground truth (harness/lib/gen_reference.py), not by the repo',
                              'mass thresholds are placed off the 1e-4 grid so float rounding cannot matter',
                              'worlds whose Sec codon spans an exon junction are not generated (the shared generator would annotate them wrongly)',
                              '<= 7 records per cluster (the oracle enumerates 2^n haplotypes)'],
                 trusted_base=['glue coq/Extract/Api_Spec.v (decoding of protocol values, canonical pool via the C10 model)',
-                              'case generator harness/lib/cvgen.py and signature predicates harness/lib/cvsig.py'])
+                              'case generators harness/lib/cvgen.py, cvgen2.py and signature predicates harness/lib/cvsig.py, cvsig2.py', 'glue coq/Extract/Api_SpecAS.v, Api_SpecCirc.v'])
 
 def replay(ctx, obj):
     c = obj['case']
@@ -225,10 +228,48 @@ def replay(ctx, obj):
         c['expect'] = obj['expect']
     n = int(obj.get('repeat', 4))      # the engine is order dependent on some inputs: repeat
     stats = collections.Counter(); violations = []
-    judge(CK.run_batch(ctx, [json.loads(json.dumps(c)) for _ in range(n)], tag='c01r'), violations, stats)
+    judge(CK2.run_batch(ctx, [json.loads(json.dumps(c)) for _ in range(n)], tag='c01r'), violations, stats)
     seen = set(); out = []
     for v in violations:
         k = (v.get('finding'), v['what'])
         if k not in seen:
             seen.add(k); out.append(v)
     return dict(violations=out)
+
+
+# ------------------------------------------------------------------ appended: alternative splicing / circRNA
+def altsplice_cases(ctx, n):
+    """stream 'altsplice' (Model/SpecAS.v must_as_set): 1-3 <DEL>/<INS>/<SUB> records on one transcript + small records at
+    the event boundaries, donor segments kept FREE of small records (with donor records the engine is defective:
+    C02-as-donor-record); obliged = products of the transcript carrying exactly one AS record and an obliged,
+    possibly empty, set of small records that keep one base clear of the event and of its anchor base"""
+    rng = ctx.rng
+    out = []
+    for i in range(n):
+        c = CG2.gen_as_case(rng, donor_records=False, nvar=rng.choice([0, 1, 2, 2, 3, 3, 4] if ctx.quick else [0, 1, 2, 3, 3, 4, 5]))
+        c['runs'] = [dict(CG.gen_run(rng, rule='trypsin', exc_on=False), as_must=True)]
+        c['stream'] = 'altsplice'
+        out.append(c)
+    return out
+
+def circ_cases(ctx, n):
+    """stream 'circ' (Model/SpecCirc.v must_circ_set): circRNA records + small records; obliged = closed products of the
+    circle (four turns, starts in the first turn) carrying the empty or an obliged set of records strictly inside a
+    fragment, minus everything the linear transcript yields with or without its records, minus the pool"""
+    rng = ctx.rng
+    out = []
+    def heavy(c):
+        # complexity limits are disabled in C01: a tiny circle with several frameshifting records makes the engine's
+        # four-copy graph explode (one 23-nt circle with 3 indels: 126 s); such inputs stay in C02 (binding limits)
+        nindel = len(set(r[2] for r in c['gvf'] if len(r[3]) != len(r[4])))
+        return nindel >= 2 and any(sum(b - a for a, b in r['frags']) < 60 for r in c['circ_records'])
+    for i in range(n):
+        c = CG2.gen_circ_case(rng)
+        for _ in range(5):
+            if not heavy(c):
+                break
+            c = CG2.gen_circ_case(rng)
+        c['runs'] = [dict(CG.gen_run(rng, rule='trypsin', exc_on=False), circ_must=True)]
+        c['stream'] = 'circ'
+        out.append(c)
+    return out
